@@ -404,7 +404,11 @@ func (*c04) Gen(rng *RNG, tier string) []Case {
 		}
 		if rng.Chance(1, 5) && !excluded && !flaky && (stack == "mem" || stack == "wire1") {
 			// data at a wrong offset must be refused and must not alter the upload
-			lines = append(lines, "up closeresume explicit", fmt.Sprintf("up badwrite %d %s", received+1+rng.Intn(3), tok("zz")), "up log")
+			badOff := received + 1 + rng.Intn(3)
+			if received > 0 && rng.Chance(1, 3) {
+				badOff = rng.Intn(received) // an offset BELOW what the registry holds (a retried chunk): refused just the same
+			}
+			lines = append(lines, "up closeresume explicit", fmt.Sprintf("up badwrite %d %s", badOff, tok(pick(rng, []string{"zz", "z", "zzzzzzzzz"}))), "up log")
 			if rng.Bool() {
 				// the same through the final PUT: data at a wrong offset together with the commit
 				lines = append(lines, fmt.Sprintf("up badcommit %d %s %s", received+1+rng.Intn(3), tok("zz"), tok(sha256Digest(append(append([]byte{}, content[:received]...), 'z', 'z')))), "up log")
